@@ -490,7 +490,7 @@ func (fr *frame) step(in ssa.Instruction, st *state) bool {
 		base := fr.addrOf(x.X, st)
 		pt := unalias(x.X.Type()).Underlying().(*types.Pointer)
 		su := structOf(pt.Elem())
-		fr.guardFieldAccess(x.X, pt.Elem(), su.Field(x.Field).Name(), st, fr.pos(x.Pos()))
+		fr.guardFieldAccess(x, x.X, pt.Elem(), su.Field(x.Field).Name(), st, fr.pos(x.Pos()))
 		fr.addrs[x] = &addr{kind: aField, base: base, field: x.Field, typ: su.Field(x.Field).Type()}
 	case *ssa.IndexAddr:
 		fr.doIndexAddr(x, st)
@@ -777,7 +777,7 @@ func (fr *frame) doUnOp(x *ssa.UnOp, st *state) {
 		if pt, ok := unalias(x.X.Type()).Underlying().(*types.Pointer); ok {
 			if structOf(pt.Elem()) != nil {
 				// copying a whole struct reads every field of it (value-receiver method calls do this)
-				fr.guardFieldAccess(x.X, pt.Elem(), "*", st, fr.pos(x.Pos()))
+				fr.guardFieldAccess(x, x.X, pt.Elem(), "*", st, fr.pos(x.Pos()))
 			}
 		}
 		a := fr.addrOf(x.X, st)
@@ -1223,7 +1223,7 @@ func (fr *frame) assumeStaticFresh(v ssa.Value, t T, st *state) {
 
 // guardFieldAccess: "guardedfields <lock>: names" — taking the address of a named field of the lock's owner (every
 // read and write goes through it), or copying the whole owner struct (field == "*"), needs the lock.
-func (fr *frame) guardFieldAccess(ptr ssa.Value, owner types.Type, field string, st *state, pos string) {
+func (fr *frame) guardFieldAccess(at ssa.Instruction, ptr ssa.Value, owner types.Type, field string, st *state, pos string) {
 	root := fr
 	for root.caller != nil {
 		root = root.caller
@@ -1253,11 +1253,12 @@ func (fr *frame) guardFieldAccess(ptr ssa.Value, owner types.Type, field string,
 	if !ok || !types.Identical(unalias(bpt.Elem()), unalias(owner)) {
 		return
 	}
-	// only accesses through that very pointer (the receiver), in this function or an inlined callee
-	if pv, ok := fr.vals[ptr]; !ok || pv.S != bv.S {
-		if fr == root {
-			return
-		}
+	// every pointer to the owner type in this function (or an inlined callee) is taken to be the lock's owner: the
+	// functions under such a contract handle one canvas; a second object of the type would make this conservative
+	// a function that starts goroutines itself is sequential until the first "go": accesses that no "go" statement
+	// can reach are not concurrent with anything (functions without "go" are the ones the workers run)
+	if fr == root && !afterSomeGo(at) {
+		return
 	}
 	hit := field == "*"
 	for _, n := range fc.GuardFields {
@@ -1279,4 +1280,50 @@ func (fr *frame) guardFieldAccess(ptr ssa.Value, owner types.Type, field string,
 		label = "struct-copy"
 	}
 	fr.vc.oblige("guard.field["+label+"]", "", root.name, st.reach, held, pos)
+}
+
+// afterSomeGo: the function has no go statement at all, or some go statement can reach this instruction.
+func afterSomeGo(at ssa.Instruction) bool {
+	fn := at.Parent()
+	var gos []*ssa.Go
+	for _, b := range fn.Blocks {
+		for _, in := range b.Instrs {
+			if g, ok := in.(*ssa.Go); ok {
+				gos = append(gos, g)
+			}
+		}
+	}
+	if len(gos) == 0 {
+		return true
+	}
+	for _, g := range gos {
+		gb := g.Block()
+		if gb == at.Block() {
+			seen := false
+			for _, in := range gb.Instrs {
+				if in == ssa.Instruction(g) {
+					seen = true
+				}
+				if in == at && seen {
+					return true
+				}
+			}
+		}
+		// blocks reachable from the go statement's block (through at least one edge)
+		visited := map[*ssa.BasicBlock]bool{}
+		work := append([]*ssa.BasicBlock{}, gb.Succs...)
+		for len(work) > 0 {
+			b := work[len(work)-1]
+			work = work[:len(work)-1]
+			if visited[b] {
+				continue
+			}
+			visited[b] = true
+			if b == at.Block() {
+				return true
+			}
+			work = append(work, b.Succs...)
+		}
+	}
+	return false
 }
